@@ -554,7 +554,14 @@ public:
       crab::CrabStats::count("Fixpo.join_predecessors");
       crab::ScopedCrabStats __st__("Fixpo.join_predecessors");
       for (basic_block_label_t prev : prev_nodes) {
-        if (!(get_nesting(prev) > cycle_nesting)) {
+        boost::optional<wto_nesting_t> prev_nesting =
+            m_iterator->m_wto.nesting(prev);
+        if (!prev_nesting) {
+          // prev is not in the WTO: it is unreachable from the entry
+          // of the CFG and its post-state is bottom.
+          continue;
+        }
+        if (!(*prev_nesting > cycle_nesting)) {
           pre |= m_iterator->get_post(prev);
         }
       }
